@@ -297,7 +297,9 @@ template <class A, class P> static void option_program(Rng& r) {
             const u32 want_size = expected_size(sh);
             if (o->size() != want_size || o->header_size() != want_size) { violation("size-accounting/" + C + "/after:" + opname, "size()=" + std::to_string(o->size()) + " header_size()=" + std::to_string(o->header_size()) + " but the wire format implies " + std::to_string(want_size) + " (fixed part " + std::to_string(base) + ") for " + show(sh) + " :: " + prog); return; }
             cnt("lists:size_checks");
-            // (5) through the wire
+            // (5) through the wire -- not after every step: an encoder that caches its last output must also be caught when several edits (possibly
+            // of the same total size) lie between two serializations
+            if (s + 1 < steps && r.chance(1, 3)) { cnt("lists:wire-check-deferred"); continue; }
             Bytes y = o->serialize();
             if (y.size() != want_size) { violation("size-accounting/" + C + "/serialization-length", "serialize() gave " + std::to_string(y.size()) + " octets, size() said " + std::to_string(want_size) + " :: " + prog); return; }
             { Bytes region = encode_region<P>(sh); region.resize(P::padded((u32)region.size()), 0);
